@@ -372,6 +372,7 @@ func checkC02(c C02Case, o *vcore.Obs) error {
 	o.ClassIf(c.Env.FV == 1, "format-v1")
 	o.ClassIf(anyStale, "stale-marker")
 	o.ClassIf(usesDefault, "default-timestamp")
+	o.ClassIf(usesDefault && c.Stored != nil && c.Env.Default <= c.Stored.TS, "default-timestamp-not-later-than-stored")
 	o.NonTrivial(nt)
 	return nil
 }
@@ -497,8 +498,17 @@ func genC02(t *rapid.T) C02Case {
 		}
 	}
 	if rapid.IntRange(0, 3).Draw(t, "default?") == 0 && maxTS < 1<<63 {
-		// shadow-capture use: default timestamp strictly greater than every stored timestamp
+		// shadow-capture use: normally the default timestamp (the detection time) is later than every
+		// stored timestamp; it is not when a peer's clock runs ahead, and the start-up capture of data
+		// changed while the syncer was down deliberately uses timestamp 1 - then the captured version
+		// is an ordinary older (or equal) version and must not replace a newer stored one
 		c.Env.Default = maxTS + 1 + uint64(rapid.IntRange(0, 3).Draw(t, "default_d"))
+		if rapid.IntRange(0, 2).Draw(t, "default_low") == 0 {
+			c.Env.Default = 1
+			if c.Stored != nil && c.Stored.TS > 1 {
+				c.Env.Default = rapid.SampledFrom([]uint64{1, c.Stored.TS - 1, c.Stored.TS}).Draw(t, "default_v")
+			}
+		}
 		c.Env.FV = 3
 		for i := range c.In {
 			c.In[i].TS = 0 // captured versions carry no timestamp
@@ -513,7 +523,7 @@ func genC02(t *rapid.T) C02Case {
 
 func TestC02Merge(t *testing.T) {
 	vcore.Run(t, vcore.Config{Property: "C02",
-		Rule: "rapid: stored in {absent, live, deleted} with unknown flag bits / extension blocks, 1-3 incoming versions (tie-prone timestamps incl. 0, values incl. empty, > 1 KiB), format version 1..3, cutoff {0, small, above all}, optional default timestamp (> every stored timestamp), header padding option; all orders (+duplicates) of the incoming set; non-trivial = stored present and an incoming version differs from it, or incoming versions tie"},
+		Rule: "rapid: stored in {absent, live, deleted} with unknown flag bits / extension blocks, 1-3 incoming versions (tie-prone timestamps incl. 0, values incl. empty, > 1 KiB), format version 1..3, cutoff {0, small, above all}, optional default timestamp (later than, equal to or earlier than the stored timestamp), header padding option; all orders (+duplicates) of the incoming set; non-trivial = stored present and an incoming version differs from it, or incoming versions tie"},
 		genC02, checkC02)
 }
 
